@@ -80,3 +80,337 @@ Lemma flat_eq (render : list entry -> list text) sc s :
 Proof. reflexivity. Qed.
 
 (* the header and error section of the flat format are those of the tree format *)
+
+(* ------------------------------------------------------------------ whole-tree projection *)
+From Coq Require Import Permutation.
+
+(* a header of the tree format: a frame's own line, or the first line of a context (a context
+   of a frame: override = None; a child context: override = Some "# ...") *)
+Inductive header := HFrame (f : frame) | HCtx (parent : frame) (override : option text) (c : context).
+
+Definition entry_of (cl : bool) (h : header) : entry :=
+  match h with HFrame f => frame_entry cl f | HCtx p ov c => ctx_entry p cl ov c end.
+Definition is_none {A} (o : option A) : bool := match o with None => true | Some _ => false end.
+(* the body of the line that the tree format prints for that header *)
+Definition hdr_line (h : header) : text :=
+  match h with HFrame f => frame_header f | HCtx _ ov c => ctx_line (is_none ov) (is_none ov) c end.
+
+(* SUMMARY order: per frame the headers of its contexts, then the frame's own header (dropped
+   when the last context is exiting); child task stacks are skipped *)
+Fixpoint headers_stack (sh : bool) (s : stack) : list header :=
+  flat_map (fun f => if visb sh (f_hide f) then headers_frame sh f else []) (s_frames s)
+with headers_frame (sh : bool) (f : frame) : list header :=
+  flat_map (headers_ctx sh f None) (f_ctxs f)
+  ++ (if last_exiting (f_ctxs f) then [] else [HFrame f])
+with headers_ctx (sh : bool) (p : frame) (ov : option text) (c : context) : list header :=
+  if visb sh (c_hide c) then
+    let 'Ctx _ _ _ _ _ _ _ _ _ inn ks _ := c in
+    HCtx p ov c
+    :: (match inn with Some s => headers_stack sh s | None => [] end)
+    ++ flat_map (fun k => match k with
+                          | KCtx c' => headers_ctx sh p (Some (child_override c')) c'
+                          | KStk _ => []
+                          end) ks
+  else [].
+
+(* FORMAT order: the frame's own header first (always printed), then its contexts *)
+Fixpoint pre_stack (sh : bool) (s : stack) : list header :=
+  flat_map (fun f => if visb sh (f_hide f) then pre_frame sh f else []) (s_frames s)
+with pre_frame (sh : bool) (f : frame) : list header :=
+  HFrame f :: flat_map (pre_ctx sh f None) (f_ctxs f)
+with pre_ctx (sh : bool) (p : frame) (ov : option text) (c : context) : list header :=
+  if visb sh (c_hide c) then
+    let 'Ctx _ _ _ _ _ _ _ _ _ inn ks _ := c in
+    HCtx p ov c
+    :: (match inn with Some s => pre_stack sh s | None => [] end)
+    ++ flat_map (fun k => match k with
+                          | KCtx c' => pre_ctx sh p (Some (child_override c')) c'
+                          | KStk _ => []
+                          end) ks
+  else [].
+
+Definition kept (h : header) : bool :=
+  match h with HFrame f => negb (last_exiting (f_ctxs f)) | HCtx _ _ _ => true end.
+
+(* ---- T1: the summary is the entry of every header, in summary order *)
+Lemma map_flat_map_gen {X Y Z} (g : Y -> Z) (F : X -> list Y) (G : X -> list Z) xs :
+  (forall x, In x xs -> map g (F x) = G x) -> map g (flat_map F xs) = flat_map G xs.
+Proof. induction xs as [|x xs IH]; simpl; auto. intros H. rewrite map_app, H, IH; auto. Qed.
+
+Section Headers.
+  Variables sh cl : bool.
+
+  Definition Hs (s : stack) : Prop := sum_stack true sh cl s = map (entry_of cl) (headers_stack sh s).
+  Definition Hf (f : frame) : Prop := sum_frame sh cl f = map (entry_of cl) (headers_frame sh f).
+  Definition Hc (c : context) : Prop :=
+    forall p ov, sum_ctx p sh cl ov c = map (entry_of cl) (headers_ctx sh p ov c).
+  Definition Hk (k : child) : Prop := match k with KCtx c => Hc c | KStk _ => True end.
+
+  Lemma summary_headers_all : (forall s, Hs s) /\ (forall f, Hf f) /\ (forall c, Hc c) /\ (forall k, Hk k).
+  Proof.
+    apply tree_ind.
+    - intros r fs lf er HF. unfold Hs. simpl. symmetry. apply map_flat_map_gen. intros f Hin.
+      eapply Forall_forall in HF; [|eassumption]. rewrite hide_if. destruct (visb sh (f_hide f)); [symmetry; apply HF | reflexivity].
+    - intros fn cls md file ln src loc h hl cs HC. unfold Hf. simpl. rewrite map_app. f_equal.
+      + symmetry. apply map_flat_map_gen. intros c Hin. eapply Forall_forall in HC; [|eassumption]. symmetry. apply HC.
+      + destruct (last_exiting cs); reflexivity.
+    - intros ty asy ex vn sl ds cs cr orp inn ks h Hi HK p ov. simpl. rewrite hide_if.
+      destruct (visb sh h); auto. simpl. f_equal. rewrite map_app. f_equal.
+      + destruct inn as [s|]; [apply Hi | reflexivity].
+      + symmetry. apply map_flat_map_gen. intros k Hin. eapply Forall_forall in HK; [|eassumption].
+        destruct k as [c'|s']; [symmetry; apply HK | reflexivity].
+    - intros c H. exact H.
+    - intros s _. exact I.
+  Qed.
+
+  Theorem summary_is_headers s : summary true sh cl s = map (entry_of cl) (headers_stack sh s).
+  Proof. apply summary_headers_all. Qed.
+End Headers.
+
+(* ---- T3: summary order is the format order with each frame's own header moved behind the
+   headers of its contexts (and dropped when the last context is exiting) *)
+Lemma Permutation_flat_map_in {X Y} (F G : X -> list Y) xs :
+  (forall x, In x xs -> Permutation (F x) (G x)) -> Permutation (flat_map F xs) (flat_map G xs).
+Proof.
+  induction xs as [|x xs IH]; simpl; auto. intros H. apply Permutation_app; [apply H; auto | apply IH; auto].
+Qed.
+
+Lemma filter_flat_map {X Y} (p : Y -> bool) (F : X -> list Y) xs :
+  filter p (flat_map F xs) = flat_map (fun x => filter p (F x)) xs.
+Proof. induction xs as [|x xs IH]; simpl; auto. rewrite filter_app, IH. reflexivity. Qed.
+
+Section Reorder.
+  Variable sh : bool.
+  Definition Rs (s : stack) : Prop := Permutation (headers_stack sh s) (filter kept (pre_stack sh s)).
+  Definition Rf (f : frame) : Prop := Permutation (headers_frame sh f) (filter kept (pre_frame sh f)).
+  Definition Rc (c : context) : Prop := forall p ov, Permutation (headers_ctx sh p ov c) (filter kept (pre_ctx sh p ov c)).
+  Definition Rk (k : child) : Prop := match k with KCtx c => Rc c | KStk _ => True end.
+
+  Lemma reorder_all : (forall s, Rs s) /\ (forall f, Rf f) /\ (forall c, Rc c) /\ (forall k, Rk k).
+  Proof.
+    apply tree_ind.
+    - intros r fs lf er HF. unfold Rs. simpl. rewrite filter_flat_map. apply Permutation_flat_map_in.
+      intros f Hin. eapply Forall_forall in HF; [|eassumption]. destruct (visb sh (f_hide f)); simpl; [exact HF | constructor].
+    - intros fn cls md file ln src loc h hl cs HC. unfold Rf.
+      set (f := Frm fn cls md file ln src loc h hl cs).
+      change (headers_frame sh f) with (flat_map (headers_ctx sh f None) cs ++ (if last_exiting cs then [] else [HFrame f])).
+      change (pre_frame sh f) with (HFrame f :: flat_map (pre_ctx sh f None) cs).
+      simpl filter. change (f_ctxs f) with cs.
+      assert (HP : Permutation (flat_map (headers_ctx sh f None) cs) (filter kept (flat_map (pre_ctx sh f None) cs))).
+      { rewrite filter_flat_map. apply Permutation_flat_map_in. intros c Hin. eapply Forall_forall in HC; [|eassumption]. apply HC. }
+      destruct (last_exiting cs); simpl.
+      + rewrite app_nil_r. exact HP.
+      + eapply Permutation_trans; [apply Permutation_app_comm|]. simpl. apply perm_skip. exact HP.
+    - intros ty asy ex vn sl ds cs cr orp inn ks h Hi HK p ov. simpl.
+      destruct (visb sh h); simpl; auto. apply perm_skip. rewrite filter_app. apply Permutation_app.
+      + destruct inn as [s|]; simpl; [apply Hi | constructor].
+      + rewrite filter_flat_map. apply Permutation_flat_map_in. intros k Hin. eapply Forall_forall in HK; [|eassumption].
+        destruct k as [c'|s']; simpl; [apply HK | constructor].
+    - intros c H. exact H.
+    - intros s _. exact I.
+  Qed.
+End Reorder.
+
+(* ---- T2: format order = the header lines of the tree format, child task stacks removed.
+   [prune] deletes child task stacks; the skeleton below is what C18_roundtrip reads back from
+   the formatted text of the pruned tree; [sk_pre_*] lists its header lines top to bottom. *)
+Fixpoint prune_stack (s : stack) : stack :=
+  let 'Stk r fs lf er := s in Stk r (map prune_frame fs) lf er
+with prune_frame (f : frame) : frame :=
+  let 'Frm a b c d e g l h hl cs := f in Frm a b c d e g l h hl (map prune_ctx cs)
+with prune_ctx (c : context) : context :=
+  let 'Ctx a b c0 d e g i j k inn ks h := c in
+  Ctx a b c0 d e g i j k
+      (match inn with Some s => Some (prune_stack s) | None => None end)
+      (flat_map (fun k => match k with KCtx c' => [KCtx (prune_ctx c')] | KStk _ => [] end) ks) h.
+
+Fixpoint sk_pre_stack (s : sk_stack) : list text :=
+  let 'SkStack fs _ _ := s in flat_map sk_pre_frame fs
+with sk_pre_frame (f : sk_frame) : list text :=
+  let 'SkFrame hdr cx _ := f in hdr :: flat_map sk_pre_node cx
+with sk_pre_node (n : sk_node) : list text :=
+  let 'SkNode line inner kids := n in line :: sk_pre_stack inner ++ flat_map sk_pre_node kids.
+
+Lemma prune_frame_hide f : f_hide (prune_frame f) = f_hide f.
+Proof. destruct f; reflexivity. Qed.
+Lemma prune_frame_header f : frame_header (prune_frame f) = frame_header f.
+Proof. destruct f; reflexivity. Qed.
+Lemma prune_ctx_hide c : c_hide (prune_ctx c) = c_hide c.
+Proof. destruct c; reflexivity. Qed.
+Lemma prune_ctx_line hp sl c : ctx_line hp sl (prune_ctx c) = ctx_line hp sl c.
+Proof. destruct c; reflexivity. Qed.
+
+Section FormatOrder.
+  Variable o : fopts.
+  Hypothesis Hsc : show_ctx o = true.
+  Let sh := show_hidden o.
+
+  Definition Ts (s : stack) : Prop :=
+    sk_pre_stack (sk_body o (prune_stack s)) = map hdr_line (pre_stack sh s).
+  Definition Tf (f : frame) : Prop :=
+    sk_pre_frame (sk_of_frame o (prune_frame f)) = map hdr_line (pre_frame sh f).
+  Definition Tc (c : context) : Prop :=
+    forall p ov, visb sh (c_hide c) = true ->
+      sk_pre_node (sk_of_ctx o (is_none ov) (is_none ov) (prune_ctx c)) = map hdr_line (pre_ctx sh p ov c).
+  Definition Tk (k : child) : Prop := match k with KCtx c => Tc c | KStk _ => True end.
+
+  Lemma pre_ctx_hidden p ov c : visb sh (c_hide c) = false -> pre_ctx sh p ov c = [].
+  Proof. destruct c; simpl. intros ->. reflexivity. Qed.
+
+  Lemma fo_ctxs p cs : Forall Tc cs ->
+    flat_map sk_pre_node
+      (flat_map (fun c => if vis o (c_hide c) then [sk_of_ctx o true true c] else []) (map prune_ctx cs))
+    = map hdr_line (flat_map (pre_ctx sh p None) cs).
+  Proof.
+    induction 1 as [|c cs Hc _ IH]; simpl; auto.
+    rewrite prune_ctx_hide. unfold vis. fold sh. change (negb (c_hide c) || sh) with (visb sh (c_hide c)).
+    rewrite map_app, <- IH.
+    destruct (visb sh (c_hide c)) eqn:Hv.
+    - simpl. f_equal. apply (Hc p None Hv).
+    - rewrite (pre_ctx_hidden p None c Hv). reflexivity.
+  Qed.
+
+  Lemma fo_kids p ks : Forall Tk ks ->
+    flat_map sk_pre_node
+      (flat_map (fun k => match k with
+                          | KCtx c' => if vis o (c_hide c') then [sk_of_ctx o false false c'] else []
+                          | KStk s => [SkNode (child_root_line (s_root s)) (sk_body o s) []]
+                          end)
+                (flat_map (fun k => match k with KCtx c' => [KCtx (prune_ctx c')] | KStk _ => [] end) ks))
+    = map hdr_line (flat_map (fun k => match k with
+                                       | KCtx c' => pre_ctx sh p (Some (child_override c')) c'
+                                       | KStk _ => []
+                                       end) ks).
+  Proof.
+    induction 1 as [|k ks Hk _ IH]; simpl; auto.
+    destruct k as [c'|s']; simpl; [|exact IH].
+    rewrite prune_ctx_hide. unfold vis. fold sh. change (negb (c_hide c') || sh) with (visb sh (c_hide c')).
+    rewrite map_app, <- IH.
+    destruct (visb sh (c_hide c')) eqn:Hv'.
+    - simpl. f_equal. apply (Hk p (Some (child_override c')) Hv').
+    - rewrite (pre_ctx_hidden _ _ c' Hv'). reflexivity.
+  Qed.
+
+  Lemma format_order_all : (forall s, Ts s) /\ (forall f, Tf f) /\ (forall c, Tc c) /\ (forall k, Tk k).
+  Proof.
+    apply tree_ind.
+    - intros r fs lf er HF. unfold Ts. simpl.
+      induction HF as [|f fs Hf _ IH]; simpl; auto.
+      rewrite prune_frame_hide. unfold vis. fold sh. change (negb (f_hide f) || sh) with (visb sh (f_hide f)).
+      destruct (visb sh (f_hide f)); simpl; [|exact IH].
+      rewrite map_app, <- IH, <- Hf. reflexivity.
+    - intros fn cls md file ln src loc h hl cs HC. unfold Tf.
+      set (f := Frm fn cls md file ln src loc h hl cs).
+      change (pre_frame sh f) with (HFrame f :: flat_map (pre_ctx sh f None) cs).
+      simpl. rewrite Hsc. f_equal. apply fo_ctxs. exact HC.
+    - intros ty asy ex vn sl ds cs cr orp inn ks h Hi HK p ov Hv.
+      set (c := Ctx ty asy ex vn sl ds cs cr orp inn ks h) in *.
+      change (pre_ctx sh p ov c) with
+        (if visb sh (c_hide c) then
+           HCtx p ov c :: (match inn with Some s => pre_stack sh s | None => [] end)
+           ++ flat_map (fun k => match k with KCtx c' => pre_ctx sh p (Some (child_override c')) c' | KStk _ => [] end) ks
+         else []).
+      rewrite Hv. simpl map. simpl sk_of_ctx. simpl sk_pre_node. f_equal. rewrite map_app. f_equal.
+      + destruct inn as [s|]; [apply Hi | reflexivity].
+      + apply fo_kids. exact HK.
+    - intros c H. exact H.
+    - intros s _. exact I.
+  Qed.
+
+  Theorem format_order s :
+    sk_pre_stack (snd (skeleton_visible o (prune_stack s))) = map hdr_line (pre_stack sh s).
+  Proof. apply format_order_all. Qed.
+End FormatOrder.
+
+
+(* child task stacks contribute nothing to the summary: it is the same for the pruned tree *)
+Definition same_info (p q : frame) : Prop :=
+  f_file p = f_file q /\ f_lineno p = f_lineno q /\ f_func p = f_func q /\ f_src p = f_src q.
+
+Lemma last_exiting_prune cs : last_exiting (map prune_ctx cs) = last_exiting cs.
+Proof.
+  unfold last_exiting, last_opt. rewrite <- map_rev. destruct (rev cs) as [|c r]; simpl; auto.
+  destruct c; reflexivity.
+Qed.
+
+Section PruneSummary.
+  Variables sh cl : bool.
+  Definition Ss (s : stack) : Prop := forall sc, sum_stack sc sh cl (prune_stack s) = sum_stack sc sh cl s.
+  Definition Sf (f : frame) : Prop :=
+    sum_frame sh cl (prune_frame f) = sum_frame sh cl f /\ frame_entry cl (prune_frame f) = frame_entry cl f.
+  Definition Sc (c : context) : Prop :=
+    forall p q ov, same_info p q -> sum_ctx q sh cl ov (prune_ctx c) = sum_ctx p sh cl ov c.
+  Definition Sk (k : child) : Prop := match k with KCtx c => Sc c | KStk _ => True end.
+
+  Lemma prune_summary_all : (forall s, Ss s) /\ (forall f, Sf f) /\ (forall c, Sc c) /\ (forall k, Sk k).
+  Proof.
+    apply tree_ind.
+    - intros r fs lf er HF sc. simpl. induction HF as [|f fs Hf _ IH]; simpl; auto.
+      rewrite prune_frame_hide, IH. destruct Hf as [H1 H2]. rewrite H1, H2. reflexivity.
+    - intros fn cls md file ln src loc h hl cs HC. split; [|reflexivity].
+      set (f := Frm fn cls md file ln src loc h hl cs).
+      change (sum_frame sh cl (prune_frame f))
+        with (flat_map (sum_ctx (prune_frame f) sh cl None) (map prune_ctx cs)
+              ++ (if last_exiting (map prune_ctx cs) then [] else [frame_entry cl (prune_frame f)])).
+      change (sum_frame sh cl f)
+        with (flat_map (sum_ctx f sh cl None) cs ++ (if last_exiting cs then [] else [frame_entry cl f])).
+      rewrite last_exiting_prune. f_equal.
+      assert (SI : same_info f (prune_frame f)) by (repeat split).
+      clearbody f. induction HC as [|c cs Hc _ IH]; simpl; auto. rewrite IH, (Hc f (prune_frame f) None SI). reflexivity.
+    - intros ty asy ex vn sl ds cs cr orp inn ks h Hi HK p q ov SI. simpl.
+      destruct (h && negb sh); auto. f_equal.
+      + destruct SI as [E1 [E2 [E3 E4]]]. unfold ctx_entry. simpl. rewrite E1, E2, E3, E4. reflexivity.
+      + f_equal.
+        * destruct inn as [s|]; [apply Hi | reflexivity].
+        * induction HK as [|k ks Hk _ IH]; simpl; auto.
+          destruct k as [c'|s']; simpl; [|exact IH]. rewrite IH. f_equal.
+          replace (child_override (prune_ctx c')) with (child_override c') by (destruct c'; reflexivity).
+          apply Hk. exact SI.
+    - intros c H. exact H.
+    - intros s _. exact I.
+  Qed.
+
+  Theorem prune_summary sc s : summary sc sh cl (prune_stack s) = summary sc sh cl s.
+  Proof. apply prune_summary_all. Qed.
+End PruneSummary.
+
+(* the two orders differ exactly in where a frame's own header sits *)
+Lemma order_equations sh :
+  (forall f, pre_frame sh f = HFrame f :: flat_map (pre_ctx sh f None) (f_ctxs f)
+             /\ headers_frame sh f = flat_map (headers_ctx sh f None) (f_ctxs f)
+                                     ++ (if last_exiting (f_ctxs f) then [] else [HFrame f]))
+  /\ (forall p ov c,
+        pre_ctx sh p ov c
+        = (if visb sh (c_hide c)
+           then HCtx p ov c :: (match c_inner c with Some s => pre_stack sh s | None => [] end)
+                ++ flat_map (fun c' => pre_ctx sh p (Some (child_override c')) c') (child_contexts (c_kids c))
+           else [])
+        /\ headers_ctx sh p ov c
+        = (if visb sh (c_hide c)
+           then HCtx p ov c :: (match c_inner c with Some s => headers_stack sh s | None => [] end)
+                ++ flat_map (fun c' => headers_ctx sh p (Some (child_override c')) c') (child_contexts (c_kids c))
+           else [])).
+Proof.
+  split.
+  - intros [fn cls md file ln src loc h hl cs]. split; reflexivity.
+  - intros p ov [ty asy ex vn sl ds csrc cr orp inn ks hh]. simpl.
+    destruct (visb sh hh); [|split; reflexivity].
+    split; f_equal; f_equal; unfold child_contexts;
+      (induction ks as [|k ks IH]; simpl; auto; destruct k as [c1|s1]; simpl; rewrite IH; auto).
+Qed.
+
+Theorem projection o cl t :
+  show_ctx o = true ->
+  let sh := show_hidden o in
+  summary true sh cl t = map (entry_of cl) (headers_stack sh t)
+  /\ (exists hdr sk, read_back (fmt_stack_sl o (prune_stack t)) = Some (hdr, sk)
+                     /\ sk_pre_stack sk = map hdr_line (pre_stack sh t))
+  /\ summary true sh cl (prune_stack t) = summary true sh cl t
+  /\ Permutation (headers_stack sh t) (filter kept (pre_stack sh t)).
+Proof.
+  intros Hsc sh. split; [|split; [|split]].
+  - apply summary_is_headers.
+  - eexists. eexists. split; [apply roundtrip|]. apply (format_order o Hsc).
+  - apply prune_summary.
+  - apply reorder_all.
+Qed.
